@@ -56,6 +56,7 @@ MayDrop(o, b) == MustDrop(o, b) \/ (b[1] = TWhitespace /\ "skipWhitespaces" \in 
 \* or untouched when the option is on.
 MayDecode(o, kind, b) == "decodeStrings" \in o /\ ~IsQuoteTok(kind, b) /\ b[2] # <<>> /\ b[2][1] \in QuoteChars(kind)
                          /\ b[1] \notin {TWhitespace, TInteger, TFloat, THex, TEof}
+ClosedLiteral(v) == Len(v) >= 2 /\ v[Len(v)] = v[1]
 DecodedAlt(o, kind, b) == <<b[1], Decode(QState(kind), b[2], b[2][1])>>
 \* <<type, value>> of a kept token after the enabled rewrites
 Rewrite(o, kind, b) ==
@@ -85,7 +86,11 @@ Aligned(o, kind, input, base, out, withPos) ==
                  pos == IF b[1] = TEof THEN <<lc[1], lc[2] + 1>> ELSE LCAdv(input, lc, off, off + 1)
                  match == /\ j <= Len(out)
                           /\ (<<out[j][1], out[j][2]>> = Rewrite(o, kind, b)
-                              \/ (MayDecode(o, kind, b) /\ <<out[j][1], out[j][2]>> = DecodedAlt(o, kind, b)))
+                              \/ (MayDecode(o, kind, b) /\ <<out[j][1], out[j][2]>> = DecodedAlt(o, kind, b))
+                              \* an UNTERMINATED literal (no closing quote): what its "decoded value" is, is not stated anywhere
+                              \* (decoding is only required not to fail on it) - the token stays one token of its type
+                              \/ ("decodeStrings" \in o /\ (IsQuoteTok(kind, b) \/ MayDecode(o, kind, b)) /\ ~ClosedLiteral(b[2])
+                                  /\ out[j][1] = Rewrite(o, kind, b)[1]))
                           /\ (withPos => <<out[j][3], out[j][4]>> = pos)
              \* Deterministic (one pass): a token that must go is dropped; otherwise it is kept when the next output token
              \* is its rewrite, else dropped if an option allows that.  This decides the existence of an alignment: the only
